@@ -143,6 +143,22 @@ func Main(t *testing.T, c *Check) {
 		}
 	}
 	only := os.Getenv("VERIF_SCENARIO")
+	// One pool of worker processes for all scenarios of the check (a worker
+	// looks the scenario up by the job's name).
+	pool := explore.NewPool(ev.Workers(), func() *exec.Cmd {
+		cmd := exec.Command(os.Args[0], "-test.run", "^"+c.TestName+"$", "-test.timeout", "0")
+		gmp := "GOMAXPROCS=1"
+		if netctl.Burst {
+			gmp = "GOMAXPROCS=4" // burst mode wants real overlap; the race detector judges
+		}
+		// randautoseed=0: the global math/rand source starts from the same
+		// seed in every worker (fewer replay divergences between processes)
+		cmd.Env = append(os.Environ(), "VERIF_WORKER=1", gmp, "GORACE=halt_on_error=1 exitcode=66", "GODEBUG=randautoseed=0")
+		if os.Getenv("VERIF_DEBUG") != "" {
+			cmd.Stderr = os.Stderr
+		}
+		return cmd
+	}, 3*time.Minute)
 	perScenario := map[string]any{}
 	start := time.Now()
 	var used time.Duration
@@ -178,21 +194,7 @@ func Main(t *testing.T, c *Check) {
 			Budget:   budget,
 			Workers:  ev.Workers(),
 			Deadline: time.Now().Add(slice),
-			Subprocess: func() *exec.Cmd {
-				cmd := exec.Command(os.Args[0], "-test.run", "^"+c.TestName+"$", "-test.timeout", "0")
-				gmp := "GOMAXPROCS=1"
-				if netctl.Burst {
-					gmp = "GOMAXPROCS=4" // burst mode wants real overlap; the race detector judges
-				}
-				// randautoseed=0: the global math/rand source starts from the same
-				// seed in every worker (fewer replay divergences between processes)
-				cmd.Env = append(os.Environ(), "VERIF_WORKER=1", gmp, "GORACE=halt_on_error=1 exitcode=66", "GODEBUG=randautoseed=0")
-				if os.Getenv("VERIF_DEBUG") != "" {
-					cmd.Stderr = os.Stderr
-				}
-				return cmd
-			},
-			JobTimeout: 3 * time.Minute,
+			Pool:     pool,
 			Allow: func(parent explore.Job, point int, label string, cost int) bool {
 				if faultFrom > 0 && cost >= faultFrom {
 					if !IsFault(label) {
@@ -276,6 +278,7 @@ func Main(t *testing.T, c *Check) {
 			sc.Name, budget, st.LevelCompleted, st.Execs, st.Points, len(obs), st.Diverged, st.Capped, st.Cut, time.Since(scStart).Seconds())
 	}
 	_ = start
+	pool.Close()
 	r.Set("scenarios", perScenario)
 	if c.Extra != nil {
 		c.Extra(r)
